@@ -99,11 +99,13 @@ type World struct {
 	FS     afero.Fs
 	Conc   Concretisation
 	chunks map[string][]byte
+	// handles that stay open across calls (HOpen / HWrite / HSync / HClose), by the model's handle id
+	handles map[string]afero.File
 }
 
 func NewWorld(inst *sut.Instance, conc Concretisation) *World {
 	conc.Fill()
-	return &World{Inst: inst, FS: inst.FS, Conc: conc, chunks: map[string][]byte{}}
+	return &World{Inst: inst, FS: inst.FS, Conc: conc, chunks: map[string][]byte{}, handles: map[string]afero.File{}}
 }
 
 func (w *World) Comp(c string) string {
@@ -256,6 +258,41 @@ func (w *World) Do(c Call) error {
 		_, err = d.Readdir(-1)
 		_ = d.Close()
 		return err
+	case "HOpen":
+		f, err := fs.OpenFile(p, openFlags(c.K), filePerm)
+		if err != nil {
+			return err
+		}
+		if info, serr := f.Stat(); serr == nil && info.IsDir() {
+			// handles on directories are not modelled (the specification answers EISDIR)
+			_ = f.Close()
+			return syscall.EISDIR
+		}
+		w.handles[c.Q[0]] = f
+		return nil
+	case "HWrite":
+		f, ok := w.handles[c.Q[0]]
+		if !ok {
+			return fmt.Errorf("runner: handle %s is not open", c.Q[0])
+		}
+		_, err := f.Write(w.Chunk(c.C))
+		return err
+	case "HSync":
+		f, ok := w.handles[c.Q[0]]
+		if !ok {
+			return fmt.Errorf("runner: handle %s is not open", c.Q[0])
+		}
+		return f.Sync()
+	case "HClose":
+		f, ok := w.handles[c.Q[0]]
+		if !ok {
+			return fmt.Errorf("runner: handle %s is not open", c.Q[0])
+		}
+		err := f.Close()
+		if err == nil {
+			delete(w.handles, c.Q[0])
+		}
+		return err
 	case "Initialize":
 		root, err := w.Inst.FS.Initialize("/", os.ModePerm)
 		w.Inst.Root, w.Inst.InitErr = root, err
@@ -268,6 +305,15 @@ func (w *World) Do(c Call) error {
 		return l.SymlinkIfPossible(p, w.Path(c.Q))
 	default:
 		return fmt.Errorf("runner: unknown op %q", c.Op)
+	}
+}
+
+// CloseHandles closes whatever handles a behaviour left open (errors do not matter: a handle whose
+// entry is gone refuses its write-back).
+func (w *World) CloseHandles() {
+	for h, f := range w.handles {
+		_ = f.Close()
+		delete(w.handles, h)
 	}
 }
 
